@@ -760,6 +760,11 @@ def correspond(ctx):
       disagreements.append(localise(cfg, L))
   evaluations += exh_nodes
   t_exh = time.time() - t_start - t_random
+  # model and implementation disagree but no history contradicted the spec yet: look for one now
+  # (check.py only calls search() when spec_failures is empty, and the F7 probe may occupy it)
+  if disagreements and all(f.get('probe') for f in spec_failures):
+    spec_failures += [f for f in search(ctx, [d['what'] for d in disagreements],
+                                        dict(disagreements=disagreements)) if not f.get('probe')][:3]
   # de-duplicate spec failures by key
   seen, uniq = set(), []
   for f in spec_failures:
